@@ -210,7 +210,7 @@ def validate_file(path, workdir):
     viols = []
     for r in v:
         for prop, d in r['viol'].items():
-            viols.append({'run': r['run'], 'prop': prop, 'msg': d['msg'], 'n': d['n'], 'faulted': d['faulted'], 'resur': d['resur'], 'big': d.get('big', False)})
+            viols.append({'run': r['run'], 'prop': prop, 'msg': d['msg'], 'n': d['n'], 'faulted': d['faulted'], 'resur': d['resur'], 'big': d.get('big', False), 'wup': d.get('wup', False)})
     return viols, int(m.group(2))
 
 
@@ -659,6 +659,8 @@ DERIVED = {
     'C07': ({'C01', 'C03', 'C05', 'C08'}, 'faulted'),
     'C06': ({'C01', 'C02', 'C03', 'C05'}, 'resur'),
     'C16': ({'C01', 'C03', 'C04', 'C05', 'C09'}, 'big'),
+    # an upgrade succeeded for an unreachable object while destructors were running: what happens to that object is C08's business
+    'C08': ({'C01', 'C03'}, 'wup'),
 }
 
 
